@@ -11,6 +11,9 @@
 (*   [k |-> "ack", res |-> <<r0, r1>>, sign |-> BOOLEAN,                    *)
 (*    tok |-> 0 | server token id]   (bind_ack / alter_context_resp)        *)
 (*   [k |-> "nak"] [k |-> "fault"] [k |-> "response"] [k |-> "eof"]         *)
+(*   [k |-> "wrongack"]  a well-formed, accepting ack of the OTHER type: an *)
+(*      alter_context_resp answering a bind, a bind_ack answering an        *)
+(*      alter_context (an unexpected PDU type like "response")              *)
 (* res: result per offered presentation context (0 = the interface with    *)
 (* NDR64, 1 = bind-time feature negotiation): "acc" | "user" | "prov" |    *)
 (* "nack" (negotiate_ack).                                                  *)
@@ -96,7 +99,7 @@ Provs == {[legs |-> n, emptyAt |-> e, auth |-> TRUE] : n \in 1 .. MaxLegs, e \in
 Acks == {[k |-> "ack", res |-> <<a, b>>, sign |-> sg, tok |-> tk] :
            a \in ResultCodes, b \in {"nack", "acc"}, sg \in BOOLEAN, tk \in ServerTokens}
 AlterAcks == {r \in Acks : r.res = <<"acc", "nack">>}
-Others == {[k |-> x] : x \in {"nak", "fault", "response", "eof"}}
+Others == {[k |-> x] : x \in {"nak", "fault", "response", "eof", "wrongack"}}
 Responses == Acks \cup Others
 
 Init == /\ prov \in Provs /\ st = Start(prov) /\ script = <<>>
@@ -136,7 +139,8 @@ SignHeader ==
      /\ ConsistentServer => (st.sent[i].sign <=> (st.advertised /\ st.ackSign))
 (* (f) rejections surface as errors                                                        *)
 FailClosed ==
-  (\E j \in 1 .. Len(script) : script[j].k \in {"nak", "fault", "eof"} \/ (script[j].k = "response" /\ j < Len(script)))
+  (\E j \in 1 .. Len(script) : script[j].k \in {"nak", "fault", "eof"} \/ (script[j].k \in {"response", "wrongack"} /\ j < Len(script))
+                               \/ (script[j].k = "wrongack" /\ st.pc # "done"))
      => st.pc = "error"
 NoRequestAfterRejection ==
   (st.pc = "error" /\ \E i \in 1 .. Len(st.sent) : st.sent[i].type = "request")
